@@ -76,7 +76,7 @@ package dns
 //@   ensures ret0 == nil ==> e.Family == b[0]*256 + b[1] && e.SourceNetmask == b[2] && e.SourceScope == b[3] && e.Family <= 2
 
 // ---- 12-bit RCODE: low nibble in the header, upper eight bits in the OPT TTL's first octet (RFC 6891 6.1.3)
-//@ func (*OPT).SetExtendedRcode [C01]
+//@ func (*OPT).SetExtendedRcode [C01 C16]
 //@   requires rr != nil
 //@   ensures hi: rr.Hdr.Ttl == old(rr.Hdr.Ttl) % 16777216 + ((v / 16) % 256) * 16777216
 //@   modifies H.RR_Header.Ttl.v
